@@ -105,6 +105,9 @@ class Site(object):
                                          [('WWW-Authenticate', 'Basic realm="x"')])
         if kind == 'drop':
             return 'drop', None
+        if kind == 'raw':
+            # arbitrary bytes (latin-1 text in d['data']); d.get('close') closes the connection afterwards
+            return 'raw', d['data'].encode('latin-1')
         raise ValueError(kind)
 
 
@@ -206,7 +209,10 @@ class CrawlRun(object):
         if data is None:
             ep.close()
         else:
-            ep.send(data)
+            d = self.site.lookup(host, port, path) or {}
+            ep.send(data, cuts=d.get('cuts'))
+            if d.get('close'):
+                ep.close()
 
     def env_step(self):
         if not self.pending:
